@@ -1,0 +1,10 @@
+//go:build !verif
+
+package engine
+
+import "time"
+
+// Sync points used by the verification harness (see verif_hooks.go, built with -tags verif).
+// Without the tag they are empty and get inlined away.
+func verifSync(point, a, b int)                       {}
+func verifDeadline(start, end time.Time, depth int) {}
